@@ -1,6 +1,7 @@
 package main
 
 import (
+	"github.com/jackc/pgx/v5/pgproto3"
 	"fmt"
 	"io"
 	"os"
@@ -95,20 +96,32 @@ func main() {
 			fmt.Println("   error:", e, err)
 		}
 	}
-	pr(c.Simple("insert into t (id, tok) values (1, 1483857175)"))
-	pr(c.Simple("select id, tok from t"))
-	pr(c.Extended("", "select id, tok from t", nil, nil, nil, []int16{1}, 0))
-	pr(c.Extended("", "insert into t (id, tok) values (2, 1483857176) returning tok, id", nil, nil, nil, []int16{1}, 0))
-	pr(c.Extended("", "insert into t (num, tok, id) values (5, 1483857177, 3) returning num, tok", nil, nil, nil, []int16{1}, 0))
-	pr(c.Simple("insert into t (num, tok, id) values (5, 1483857178, 4) returning num, tok"))
-	pr(c.Simple("select num, tok from t"))
-	pr(c.Simple("select tok from t"))
-	for _, r := range db.Snapshot("t") {
-		fmt.Printf("%v %v\n", r[0], r[6])
-	}
+	pr(c.Simple("insert into t (id, srch) values (1, 'findme'), (2, 'other'), (3, 'findme')"))
+	fmt.Println("-- param text")
+	pr(c.Extended("", "select id from t where srch = $1", nil, [][]byte{[]byte("findme")}, nil, nil, 0))
+	fmt.Println("-- param text hex")
+	pr(c.Extended("", "select id from t where srch = $1", nil, [][]byte{[]byte("\\x66696e646d65")}, nil, nil, 0))
+	fmt.Println("-- param binary")
+	pr(c.Extended("", "select id from t where srch = $1", nil, [][]byte{[]byte("findme")}, []int16{1}, nil, 0))
+	fmt.Println("-- param binary, describe stmt flow")
+	c.Send(&pgproto3.Parse{Name: "s1", Query: "select id from t where srch = $1"}, &pgproto3.Describe{ObjectType: 'S', Name: "s1"}, &pgproto3.Sync{})
+	pr(c.ReadUntilReady())
+	c.Send(&pgproto3.Bind{PreparedStatement: "s1", Parameters: [][]byte{[]byte("findme")}, ParameterFormatCodes: []int16{1}}, &pgproto3.Execute{}, &pgproto3.Sync{})
+	pr(c.ReadUntilReady())
+	fmt.Println("-- reversed literal")
+	pr(c.Simple("select id from t where 'findme' = srch"))
+	fmt.Println("-- reversed param")
+	pr(c.Extended("", "select id from t where $1 = srch", nil, [][]byte{[]byte("findme")}, nil, nil, 0))
+	fmt.Println("-- or")
+	pr(c.Extended("", "select id from t where (srch = $1 or id = $2)", nil, [][]byte{[]byte("findme"), []byte("2")}, nil, nil, 0))
+	fmt.Println("-- and id > '2'")
+	pr(c.Extended("", "select id from t where (srch = $1 and id > '2')", nil, [][]byte{[]byte("findme")}, nil, nil, 0))
 	for _, r := range srv.Log() {
 		if r.SQL != "" {
 			q := r.SQL; if len(q) > 260 { q = q[:60] + " ... " + q[len(q)-120:] }; fmt.Printf("FWD %s: %s\n", r.Type, q)
+		}
+		if r.Bind != nil {
+			fmt.Printf("FWD Bind: %q %v\n", r.Bind.Parameters, r.Bind.ParameterFormatCodes)
 		}
 	}
 	fmt.Println("unsupported:", srv.Unsupported())
